@@ -29,6 +29,23 @@ def run(rep, prog, tier):
     rep.rule("C05-R8", "a dead writer publishes nothing (shared with C11-R8): SegmentUpdater::save_metas writes meta.json only on the true arm of is_alive(); tasks that were already queued when the writer was rolled back or dropped still run on the updater thread, and without the guard they overwrite the meta.json of the replacement writer — a reload moves back to an older commit")
     from .c11 import publish_only_alive
     publish_only_alive(rep, prog, "C05-R8")
+    flock_files_stay(rep, prog, "C05-R9")
+
+
+def flock_files_stay(rep, prog, R):
+    """a lock that is an flock on a file keeps the file"""
+    rep.rule(R, "flock-based lock files are never unlinked: MmapDirectory's locks (META_LOCK, which protects a reader between reading meta.json and opening the segment files from the garbage collector; INDEX_WRITER_LOCK) are `flock`s on a file that stays in the directory. Unlinking the file on release breaks mutual exclusion: a party already blocked in flock() gets the lock on the now unlinked inode, the next party finds no file, creates a new one and locks it at once. So the only caller of std::fs::remove_file in the mmap directory is MmapDirectory::delete, and the Drop of the lock guard touches no file")
+    import re
+    RM = prog.names(r"^std::fs::(remove_file|remove_dir|remove_dir_all)$")
+    ok, callers = rule_who_may_call(rep, prog, R, RM, "std::fs::remove_file", {
+        "<tantivy::directory::mmap_directory::MmapDirectory as tantivy::directory::directory::Directory>::delete": "Directory::delete of a managed file (C10-R3 tables who calls it)",
+    })
+    drops = [n for n in prog.bodies if re.search(r"^<tantivy::directory::mmap_directory::ReleaseLockFile as core::ops::drop::Drop>::drop$", n)]
+    if rep.check(len(drops) == 1, R, "ReleaseLockFile::drop present", "the guard of an MmapDirectory lock", "cannot establish: Drop for mmap_directory::ReleaseLockFile not found"):
+        b = prog.bodies[drops[0]]
+        fsc = [t.get("f") for _, t in b.calls() if (t.get("f") or "").startswith(("std::fs::", "std::os::", "tantivy::directory::"))]
+        rep.check(not fsc, R, "releasing an MmapDirectory lock only drops the file handle", "no file system call in ReleaseLockFile::drop",
+                  "ReleaseLockFile::drop calls %s: the lock is an flock on that file; removing or replacing the file lets a second party lock a fresh inode while another still holds (or is about to be granted) the old one" % fsc, site=b.span)
 
 
 def r1(rep, prog):
